@@ -210,3 +210,33 @@ Definition run_server_choice (c : option bytes * list bytes) : option (option by
 Definition run_client_choice (c : list bytes * list bytes) : option bytes := client_choice (fst c) (snd c).
 Definition is_modelled (h : option bytes) : bool :=
   match parse_items h with Some _ => true | None => false end.
+
+(* all negotiation cases of one run in one evaluation *)
+Inductive ncase :=
+| NParse (h : option bytes)
+| NModelled (h : option bytes)
+| NServer (h : option bytes) (enabled : list bytes)
+| NClient (request_encodings supported : list bytes).
+
+Inductive nres :=
+| NList (o : option (list bytes))
+| NBool (b : bool)
+| NChoice (o : option (option bytes))
+| NCoding (o : option bytes).
+
+Definition run_neg (c : ncase) : nres :=
+  match c with
+  | NParse h => NList (parse_header h)
+  | NModelled h => NBool (is_modelled h)
+  | NServer h en => NChoice (server_choice h en)
+  | NClient re sup => NCoding (client_choice re sup)
+  end.
+
+Definition nres_eqb (model impl : nres) : bool :=
+  match model, impl with
+  | NList a, NList b => hdr_eqb a b
+  | NBool a, NBool b => Bool.eqb a b
+  | NChoice a, NChoice b => choice_eqb a b
+  | NCoding a, NCoding b => obytes_eqb a b
+  | _, _ => false
+  end.
